@@ -239,7 +239,9 @@ func (r *Results) normalizeE2eProbe() {
 			}
 		}
 
-		r.E2eProbe.RTT.Avg = totalRTTs / float64(len(validRTTs))
+		// the floating-point mean can land an ulp outside [min, max] (three samples of 0.1 average to
+		// 0.10000000000000002): keep the reported average inside the reported range
+		r.E2eProbe.RTT.Avg = math.Min(math.Max(totalRTTs/float64(len(validRTTs)), minRTT), maxRTT)
 		r.E2eProbe.RTT.Min = minRTT
 		r.E2eProbe.RTT.Max = maxRTT
 	}
